@@ -9,7 +9,54 @@ ID = "C08"
 MODULE = "C08"
 IMPORTS = "Bytes RustInt Range Cache Http1Write Http1WriteProofs"
 PROFILES = ("dev",)
-THEOREMS = []
+SENDQ = "forall (error_body : N -> option bytes -> bytes) (package : head -> head), package_ok package -> "
+CONNQ = ("forall (Q A : Type) (q_method : Q -> N) (q_content_length : Q -> option bytes) (q_known_host : Q -> bool) "
+         "(q_head : Q -> bytes) (app : A -> Q -> A * reply0 * option N) (error_body : N -> option bytes -> bytes) "
+         "(package : Q -> head -> head) (too_many_body : bytes), ")
+THEOREMS = [
+    ("framing_roundtrip",
+     "forall l : list (N * sent), Forall (fun p => framed (fst p) (snd p)) l -> "
+     "parse_responses (map fst l) (concat (map (fun p => wire (snd p)) l)) = Some (map (fun p => observable (snd p)) l)"),
+    ("send_output_framed",
+     SENDQ + "forall (m : N) (r : reply0) (s : sent), reply_ok r -> send error_body package m r = Ok s -> framed m s"),
+    ("send_total",
+     SENDQ + "forall (m : N) (r : reply0), reply_ok r -> exists s, send error_body package m r = Ok s"),
+    ("length_is_body",
+     SENDQ + "forall (m : N) (r : reply0) (s : sent), reply_ok r -> m <> M_HEAD -> send error_body package m r = Ok s -> "
+     "announced (hd_headers (st_head s)) = Some (N.of_nat (length (st_body s)))"),
+    ("head_has_no_body",
+     SENDQ + "forall (r : reply0) (s : sent), reply_ok r -> send error_body package M_HEAD r = Ok s -> "
+     "st_body s = [] /\\ exists g, send error_body package M_GET r = Ok g /\\ st_head g = st_head s /\\ "
+     "announced (hd_headers (st_head s)) = Some (N.of_nat (length (st_body g)))"),
+    ("one_response_per_request",
+     CONNQ + "app_ok Q A app -> packages_ok Q package -> forall (hs : list (hreq Q)) (a : A), "
+     "Forall (polite Q q_method q_content_length q_known_host) hs -> exists ss : list sent, "
+     "conn_run Q A q_method q_content_length q_known_host q_head app error_body package too_many_body true true a (Open []) hs "
+     "= (map Some ss, Open []) /\\ length ss = length hs /\\ "
+     "serve_seq Q A q_method app error_body package too_many_body true a hs = map Ok ss /\\ "
+     "parse_responses (map (fun h => q_method (h_q h)) hs) (written (map Some ss)) = Some (map observable ss)"),
+    ("unread_body",
+     "forall (Q : Type) (q_method : Q -> N) (q_content_length : Q -> option bytes) (h : hreq Q) (lim : option N), "
+     "let declared := body_length (q_method (h_q h)) (q_content_length (h_q h)) in "
+     "let total := N.of_nat (length (h_body h)) in "
+     "N.min (N.of_nat (h_early h)) total <= declared -> "
+     "match lim with Some l => N.min declared l | None => 0 end <= total -> "
+     "after_body Q q_method q_content_length true h lim = "
+     "if total =? declared then Open [] else if total <? declared then Closed else Unmodelled"),
+    ("unread_body_v0_refuted",
+     "(let '(os, fin) := c8_run false true w_cfg w_unread in "
+     "statuses os = [Some 405; None] /\\ fin = Closed /\\ parse_responses [M_POST; M_GET] (written os) = None) /\\ "
+     "(let '(os, fin) := c8_run true true w_cfg w_unread in "
+     "statuses os = [Some 405; Some 200] /\\ fin = Open [] /\\ "
+     "option_map (map p_status) (parse_responses [M_POST; M_GET] (written os)) = Some [405; 200])"),
+    ("limited_head_v0_refuted",
+     "parse_responses [M_HEAD; M_GET] (wire (limited TOO_MANY false M_HEAD) ++ wire (limited TOO_MANY false M_GET)) = None /\\ "
+     "option_map (map p_status) (parse_responses [M_HEAD; M_GET] (wire (limited TOO_MANY true M_HEAD) ++ "
+     "wire (limited TOO_MANY true M_GET))) = Some [429; 429]"),
+    ("bodyless_status_with_body_refuted",
+     "exists r s, send hardcoded_error_body (fun h => h) M_GET r = Ok s /\\ r0_status r = 204 /\\ r0_body r <> [] /\\ "
+     "parse_responses [M_GET] (wire s) = None"),
+]
 RULE = ""
 ASSUMPTIONS = []
 TRUSTED = []
